@@ -470,7 +470,7 @@ func ecdsaCase[P curves.Point[P, B, S], B algebra.PrimeFieldElement[B], S algebr
 // one alteration of message / r / s / v / key that every verifier must reject.
 func TestECDSA(t *testing.T) {
 	const test = "ECDSA"
-	vlib.Check(t, 1400, func(t *rapid.T) {
+	vlib.Check(t, 1200, func(t *rapid.T) {
 		switch rapid.SampledFrom([]string{"k256", "k256", "p256", "p256", "pallas", "vesta"}).Draw(t, "curve") {
 		case "k256":
 			ecdsaCase(t, test, envK256)
@@ -578,7 +578,7 @@ func ecdsaDiffCase[P curves.Point[P, B, S], B algebra.PrimeFieldElement[B], S al
 // must equal the reference model's (and crypto/ecdsa's on P-256) in both directions.
 func TestECDSADifferential(t *testing.T) {
 	const test = "ECDSADifferential"
-	vlib.Check(t, 700, func(t *rapid.T) {
+	vlib.Check(t, 500, func(t *rapid.T) {
 		switch rapid.SampledFrom([]string{"k256", "p256", "p256", "pallas", "vesta"}).Draw(t, "curve") {
 		case "k256":
 			ecdsaDiffCase(t, test, envK256)
